@@ -6,7 +6,7 @@
 # not disturbed); the verdicts are always written to /verif/seeded/<id>/check.json.
 V=${SEED_VERIF:-/verif}; R=${SEED_REPO:-/repo}
 cd $V
-declare -A RELATED=( [C01]="C19" [C15]="C09" [C07]="C08" [C08]="C07 C11" [C11]="C08" [C09]="C15" )
+declare -A RELATED=( [C14]="C13" [C01]="C19" [C15]="C09" [C07]="C08" [C08]="C07 C11" [C11]="C08" [C09]="C15" )
 ids=("$@"); [ ${#ids[@]} -eq 0 ] && ids=($(ls /verif/seeded))
 for sd in "${ids[@]}"; do
   d=/verif/seeded/$sd; prop=${sd%-*}; prop=${prop%r}
